@@ -30,7 +30,8 @@ def run_events(S, case):
             path = os.path.join(out, ["submit_jobs_events.log", f"run_jobs_batch_{f}_events.log", f"job{f}_events.log"][f % 3] if f < 3 else f"p{f}_events.log")
             with open(path, "a") as fh:
                 for _ in range(rng.randint(0, case["per_file"])):
-                    ts += rng.choice([0, 1, 1, 5])                       # equal timestamps happen (same clock tick on two nodes)
+                    # a per-node file merges the logs of concurrently running jobs: times are NOT monotone within a file; equal stamps happen too
+                    ts = rng.randint(0, 50) if rng.random() < 0.7 else ts
                     stamp = f"2026-01-01 00:{(ts // 60) % 60:02d}:{ts % 60:02d}.{rng.randint(0, 999999):06d}" if rng.random() < 0.9 else f"2026-01-01 00:00:{ts % 60:02d}.000000"
                     extra = {}
                     if rng.random() < 0.5:
